@@ -25,8 +25,15 @@ void harness(void)
     int16_t n = COEmcyCnt(&V_NODE.Emcy);
     if (n == CO_EMCY_N) { __CPROVER_assert(0, "REACH:a"); }
 #else
+#ifdef VW_SILENT_ONLY
+    __CPROVER_assume(H_SILENT != 0);       /* the NMT reset path (C20) */
+#endif
     COEmcyReset(&V_NODE.Emcy, H_SILENT);
+#ifdef VW_SILENT_ONLY
+    if (H_ACTIVE0 == 5) { __CPROVER_assert(0, "REACH:a"); }
+#else
     if (G_TX_N - tx0 == 5) { __CPROVER_assert(0, "REACH:a"); }
+#endif
 #endif
     __CPROVER_assert(0, "REACH:post");
 }
